@@ -963,8 +963,10 @@ def get_charnos(node: ast.AST, source: str, keep_first_indent: bool = False) -> 
     if code and code[-1] == " ":
         whitespace = max(re.findall(r" *\Z$", code), key=len)
         end_charno -= len(whitespace)
-    if source[start_charno - 1] == "@" and isinstance(
-        node, (ast.ClassDef, ast.FunctionDef, ast.AsyncFunctionDef)
+    if (
+        start_charno > 0  # At the start of the source there is nothing in front, -1 is its last character
+        and source[start_charno - 1] == "@"
+        and isinstance(node, (ast.ClassDef, ast.FunctionDef, ast.AsyncFunctionDef))
     ):
         start_charno -= 1
     if keep_first_indent:
